@@ -66,7 +66,8 @@ def cases(tier, cfg, seed):
 
 def cfgs(tier):
     c = main_cfgs(tier)
-    return c + [Cfg('avx2', 17, 'O2', ('FASTOR_DONT_PERFORM_OP_MIN=1',))] + ([Cfg('avx2', 14, 'O2')] if tier != 'quick' else [])
+    # op-min off (FASTOR_DONT_PERFORM_OP_MIN) cannot be exercised: <Fastor/Fastor.h> does not compile with it (known finding under C06)
+    return c + [Cfg('avx2', 14, 'O2')]
 
 
 def bounds(tier): return {'topologies_3ops_rank2': len(topologies(3, 2)), 'outside': 'DepthFirst variants; rank-3 operands and 4 operands only seeded subsets'}
